@@ -66,6 +66,16 @@ Definition interaction_at (user : option mat) (traj : traj_matrix) (c : Z) (targ
   | Some src => Some (callable (full_matrix c src) (masked_matrix c targets src) slm_end t)
   end.
 
+(* get_sequences over ALL noise trajectories: `for samples in noisy_samples: ... for _ in range(samples.reps): yield`.
+   Every trajectory carries its own matrix (register noise moves the atoms, SPAM removes some); the k-th yielded
+   SequenceData answers interaction_matrix(t) with the pipeline applied to the matrix of the trajectory it comes
+   from.  The user matrix, cutoff, SLM targets and SLM end are those of the PulserData (trajectory independent). *)
+Definition expand_trajs (trajs : list (traj_matrix * nat)) : list traj_matrix :=
+  flat_map (fun tr => repeat (fst tr) (snd tr)) trajs.
+Definition sequences_at (user : option mat) (trajs : list (traj_matrix * nat)) (c : Z) (targets : list nat)
+    (slm_end t : Z) : list (option mat) :=
+  flat_map (fun tr => repeat (interaction_at user (fst tr) c targets slm_end t) (snd tr)) trajs.
+
 (* slm_end_time = sequence._slm_mask_time[1] if len(sequence._slm_mask_time) > 1 else 0.0 *)
 Definition slm_end_time (slm_mask_time : list Z) : Z :=
   match slm_mask_time with
